@@ -17,13 +17,15 @@ SHAPES = [
     ["data: a"], ["data: a", "data: b"], ["id: 1", "data: a"], ["event: n", "data: a"], ["id: 1", "event: n", "data: a", "data: b"],
     ["id", "data: a"], ["data:"], ["retry: 5000", "data: a"], ["data"], ["data: a", "data:"], [": c", "data: a"], ["data:  x"], ["event: n"],
     ["id: 2", "retry: 70", "data: é"], ["data: a", ": c", "data: b"], ["foo: bar", "data: a"], ["id:", "retry: x", "data: a"],
+    # values that themselves hold a colon (and a colon followed by a space), with and without the space after the field's colon
+    ["data:a: b"], ["id:k: 8", "data: x:y"], ["event:n:m", "data::"],
 ]
 HEAD = b"HTTP/1.1 200 OK\r\nContent-Type: text/event-stream\r\n"
 
 
 def RULE(tier):
     return ("streams of 1-%d events built from %d event shapes (id, event, 1-2 data lines incl. empty and colon-less, retry, comment, "
-            "unknown field); line terminators: every assignment of CRLF/LF/CR per line for single events, uniform and every single "
+            "unknown field, values holding colons); line terminators: every assignment of CRLF/LF/CR per line for single events, uniform and every single "
             "deviation from uniform for multi-event streams; delivery: close-delimited and chunked, every partition with <= %d cuts "
             "(single events) / <= 1 cut (multi) and byte-by-byte; plus resumption: every stream cut inside an unfinished line (6 kinds of tail), "
             "followed on a new connection by every stream, parsed by the same Respondent (uniform terminators). Oracle: Respondent.events/.leid/.retry equal the WHATWG reference "
